@@ -160,6 +160,14 @@ def _worker(args):
         return {'w': w, 'error': traceback.format_exc()}
 
 
+def _run_pool(ctx, n, tasks):
+    """Run _worker over tasks in n processes; a worker that dies (e.g. a crash in compiled
+    code under test) raises BrokenProcessPool instead of hanging the run."""
+    from concurrent.futures import ProcessPoolExecutor
+    with ProcessPoolExecutor(max_workers=n, mp_context=ctx) as ex:
+        return list(ex.map(_worker, tasks))
+
+
 def _write_replay(pid, clause, desc, detail) -> str:
     d = os.path.join(ROOT, 'replays', os.environ.get('VERIF_FOUND', 'found'), pid)
     os.makedirs(d, exist_ok=True)
@@ -272,8 +280,11 @@ def main(pid: str, argv=None):
     if n > 0:
         tasks = [(pid, args.tier, w, stable_seed(seedv, pid, w), n, None) for w in range(jobs)]
         ctx = mp.get_context('fork')
-        with ctx.Pool(min(jobs, len(tasks))) as pool:
-            results = pool.map(_worker, tasks, chunksize=1)
+        try:
+            results = _run_pool(ctx, min(jobs, len(tasks)), tasks)
+        except Exception as e:
+            print("HARNESS-ERROR: worker pool failed: %s: %s" % (type(e).__name__, e))
+            return 2
         errs = [r for r in results if r.get('error')]
         if errs:
             print(errs[0]['error'])
@@ -291,8 +302,12 @@ def main(pid: str, argv=None):
         if merged['failures']:
             stasks = [(pid, args.tier, w, stable_seed(seedv, pid, w), n, clause)
                       for clause, (w, _) in sorted(merged['failures'].items())]
-            with ctx.Pool(min(jobs, len(stasks))) as pool:
-                sres = pool.map(_worker, stasks, chunksize=1)
+            try:
+                sres = _run_pool(ctx, min(jobs, len(stasks)), stasks)
+            except Exception as e:
+                print("HARNESS-ERROR: worker pool failed while shrinking: %s: %s" % (
+                    type(e).__name__, e))
+                return 2
             for (clause, (w, detail)), r in zip(sorted(merged['failures'].items()), sres):
                 if r.get('error'):
                     print(r['error'])
